@@ -153,7 +153,7 @@ def r3_layout(ctx, F, table):
     ctx.check("R3-layout", "major-too-old", ok, "INIT: a major version below the server's is not answered with EPROTO", loc=b.loc())
     # newer major: bare version reply
     for (c, g, size) in sites:
-        if "Gt(InitIn.major, KERNEL_VERSION)" in g:
+        if vf.fact("Gt(InitIn.major, KERNEL_VERSION)") in g:
             a = v.call_args(c)[1]
             out = a[3][0][1] if a[0] == "A" and a[2] == "Some" else a
             vf.NOCAST[0] = True
